@@ -29,7 +29,14 @@ def conc_world_c1(ctx):
     return w
 
 
-def conc_family(name, mk_reqs, world=None):
+def conc_world_2classes(ctx):
+    """conc_world plus a second custom class with a higher identifier"""
+    w = conc_world(ctx)
+    w.rc('CUSTOM_BAR', 10001)
+    return w
+
+
+def conc_family(name, mk_reqs, world=None, max_preemptions=None):
     """removal of an entity racing a request that starts using it: after
     every schedule nothing dangles and the hierarchy is a forest"""
     from engine import app
@@ -40,7 +47,7 @@ def conc_family(name, mk_reqs, world=None):
         app.setup()
         reqs = mk_reqs()
         pre, results, final, sched, writes = conc.run_concurrent(
-            ctx, world or conc_world, reqs)
+            ctx, world or conc_world, reqs, max_preemptions=max_preemptions)
         for i, r in enumerate(results):
             if r.status >= 500:
                 runner.violation(ctx, 'no-5xx', '%s: %d' % (reqs[i].name,
@@ -50,7 +57,9 @@ def conc_family(name, mk_reqs, world=None):
         c18.forest_ok(ctx, final)
         return finish(ctx, ','.join(str(r.status) for r in results))
     return Family('conc/' + name, path, bounds=dict(
-        schedules='every interleaving at transaction granularity'))
+        schedules='every interleaving at transaction granularity' + (
+            '' if max_preemptions is None else
+            ' with at most %d pre-emption(s)' % max_preemptions)))
 
 
 def _reqs():
@@ -133,6 +142,10 @@ def _reqs():
                     'CUSTOM_FOO': {'total': ctx.int('foo_total', 1)}}}},
                 'allocations': {}}, version='1.36', roles='admin,service'))
 
+    def put_class():
+        return Req('put_class', lambda ctx, w: app.call(
+            'PUT', '/resource_classes/CUSTOM_FOO', version='1.36'))
+
     def delete_trait():
         return Req('delete_trait', lambda ctx, w: app.call(
             'DELETE', '/traits/CUSTOM_T1', version='1.36'))
@@ -160,6 +173,14 @@ def families(tier):
         conc_family('delete_alloc+put_alloc(same consumer)', lambda: [
             R['delete_alloc'](), R['put_alloc_existing'](1)],
             world=conc_world_c1),
+        # a class is deleted while it is being deleted, re-created and used
+        # (four requests, one pre-emption): whichever record a DELETE
+        # removes, no inventory may be left pointing at it
+        conc_family('delete_class+[delete_class;put_class;put_inventories]',
+                    lambda: [R['delete_class'](), R['delete_class'](),
+                             R['put_class'](),
+                             R['put_inventories_custom'](2)],
+                    world=conc_world_2classes, max_preemptions=1),
         # the replace-all write resolves the class inside its transaction
         # (unlike POST of one inventory, see the note below)
         conc_family('delete_class+put_inventories', lambda: [
